@@ -148,8 +148,13 @@ class DynBaseRefDict(RefDict):
                 if root == impl:
                     return self.owner.rootspace
                 elif impl.startswith(root + "."):   # Not just a longer name
-                    return self.owner.rootspace.get_impl_from_name(
+                    found = self.owner.rootspace.get_impl_from_name(
                         impl[rootlen+1:]) # +1 to remove preceding dot
+                    if found is None:
+                        # No counterpart in the dynamic tree
+                        # (an ItemSpace of a child space): the original
+                        return value
+                    return found
                 else:
                     if value.refmode == "auto":
                         if value.is_defined():
